@@ -139,8 +139,106 @@ func DeferRunOrder(fn *ssa.Function) (order []*ssa.Defer, ok bool) {
 	return
 }
 
-// deferKind names a deferred call for the ordering rules.
-func (p *Prog) deferKind(d *ssa.Defer) (kind, arg string) {
+// straightLine: fn is one basic block (plus, possibly, the recover block): whatever it does, it
+// does unconditionally and in source order.
+func straightLine(fn *ssa.Function) *ssa.BasicBlock {
+	var body *ssa.BasicBlock
+	for _, b := range fn.Blocks {
+		if b == fn.Recover {
+			continue
+		}
+		if body != nil {
+			return nil
+		}
+		body = b
+	}
+	return body
+}
+
+// CleanupOrder: the calls the deferred calls of fn amount to, in the order they run. A deferred
+// product helper with a straight-line body (`defer dsc.terminate()`, terminate = close(a); close(b))
+// stands for its own calls in order followed by its own defers in reverse order, so gathering
+// several defers into one clean-up method does not change what the ordering rules see.
+func (p *Prog) CleanupOrder(fn *ssa.Function) (order []ssa.CallInstruction, ok bool) {
+	ds, ok := DeferRunOrder(fn)
+	for _, d := range ds {
+		order = append(order, p.expandCleanup(d, 0)...)
+	}
+	return order, ok
+}
+
+func (p *Prog) expandCleanup(c ssa.CallInstruction, depth int) []ssa.CallInstruction {
+	callee := p.Callee(c)
+	if callee == nil || !p.IsProduct(callee) || depth > 2 {
+		return []ssa.CallInstruction{c}
+	}
+	// stop/wait methods of (other) discipline structs keep their identity (substop, wait)
+	if callee.Signature.Recv() != nil {
+		if obj, _ := callee.Object().(*types.Func); obj != nil && obj.Exported() {
+			return []ssa.CallInstruction{c}
+		}
+	}
+	body := straightLine(callee)
+	if body == nil {
+		return []ssa.CallInstruction{c}
+	}
+	var out []ssa.CallInstruction
+	var own []ssa.CallInstruction
+	n := 0
+	for _, in := range body.Instrs {
+		switch x := in.(type) {
+		case *ssa.Defer:
+			own = append([]ssa.CallInstruction{x}, own...)
+			n++
+		case *ssa.Call:
+			if bi, isB := x.Call.Value.(*ssa.Builtin); isB && bi.Name() != "close" {
+				continue // len, cap ...
+			}
+			out = append(out, p.expandCleanup(x, depth+1)...)
+			n++
+		case *ssa.Go, *ssa.Send, *ssa.Select:
+			return []ssa.CallInstruction{c} // more than a clean-up sequence
+		}
+	}
+	if n == 0 {
+		return []ssa.CallInstruction{c}
+	}
+	for _, d := range own {
+		out = append(out, p.expandCleanup(d, depth+1)...)
+	}
+	return out
+}
+
+// cleanupOnly: fn is a straight-line helper that is only ever called as an unconditional defer of
+// a goroutine entry (directly, or from another such helper): what it does, the entry's defers do.
+func (p *Prog) cleanupOnly(fn *ssa.Function, entries map[*ssa.Function]*GoEntry, depth int) *GoEntry {
+	if depth > 2 || straightLine(fn) == nil {
+		return nil
+	}
+	sites := p.CallSites(fn)
+	if len(sites) == 0 {
+		return nil
+	}
+	var owner *GoEntry
+	for _, cs := range sites {
+		var e *GoEntry
+		parent := cs.Parent()
+		if _, isDefer := cs.(*ssa.Defer); isDefer && cs.Block().Index == 0 && entries[parent] != nil {
+			e = entries[parent]
+		} else if cs.Block() == straightLine(parent) {
+			if _, isGo := cs.(*ssa.Go); !isGo {
+				e = p.cleanupOnly(parent, entries, depth+1)
+			}
+		}
+		if e == nil || (owner != nil && owner != e) {
+			return nil
+		}
+		owner = e
+	}
+	return owner
+}
+
+func (p *Prog) deferKind(d ssa.CallInstruction) (kind, arg string) {
 	cc := d.Common()
 	if b, ok := cc.Value.(*ssa.Builtin); ok {
 		if b.Name() == "close" {
@@ -176,7 +274,7 @@ func (p *Prog) deferKind(d *ssa.Defer) (kind, arg string) {
 	return "dyn", s.String()
 }
 
-func (p *Prog) describeDefers(order []*ssa.Defer) string {
+func (p *Prog) describeDefers(order []ssa.CallInstruction) string {
 	var parts []string
 	for _, d := range order {
 		k, a := p.deferKind(d)
@@ -277,7 +375,7 @@ func (p *Prog) helperBounded(d *Disc, child *GoEntry) (ok bool, detail string) {
 	if len(fields) == 0 {
 		return true, "helper goroutine never blocks"
 	}
-	order, okd := DeferRunOrder(child.Parent.Entry)
+	order, okd := p.CleanupOrder(child.Parent.Entry)
 	if !okd {
 		return false, "UNDECIDED: conditional defer in the spawning entry"
 	}
